@@ -131,3 +131,49 @@ func TestF24_SecondAnswerRewritesReply(t *testing.T) {
 		t.Fatalf("reply to the request: type %d tag %d name %q, want the first answer (Rstat, tag 7, name \"first\")", r.Type, r.Tag, r.Dir.Name)
 	}
 }
+
+type slowClunk struct {
+	*ops
+	destroyed map[uint32]int
+}
+
+func (o slowClunk) Clunk(r *g.SrvReq) {
+	close(o.gate["entered"])
+	<-o.gate["clunk"]
+	r.RespondRclunk()
+	close(o.gate["answered"])
+}
+func (o slowClunk) FidDestroy(f *g.SrvFid) {
+	o.mu.Lock()
+	o.destroyed[g.VerifFidNo(f)]++
+	o.mu.Unlock()
+}
+
+// K-4a/F-25: a Tclunk executing when the client disconnects: the fid is reported destroyed by
+// Conn.close and again when the clunk completes.
+func TestF25_ClunkInFlightAtDisconnectDestroysTwice(t *testing.T) {
+	o := slowClunk{&ops{gate: map[string]chan bool{"entered": make(chan bool), "clunk": make(chan bool), "answered": make(chan bool)}}, map[uint32]int{}}
+	srv := &g.Srv{Msize: 8192}
+	if !srv.Start(o) {
+		t.Fatal("Start")
+	}
+	a, c := net.Pipe()
+	srv.NewConn(conn{a})
+	version(t, c, 8192, "9P2000")
+	attach(t, c, 1)
+	fc := g.NewFcall(8192)
+	g.PackTclunk(fc, 1)
+	send(t, c, fc, 7)
+	<-o.gate["entered"]
+	c.Close()
+	time.Sleep(50 * time.Millisecond)
+	close(o.gate["clunk"])
+	<-o.gate["answered"]
+	time.Sleep(50 * time.Millisecond)
+	o.mu.Lock()
+	n := o.destroyed[1]
+	o.mu.Unlock()
+	if n != 1 {
+		t.Fatalf("fid 1 reported destroyed %d times, want once", n)
+	}
+}
